@@ -122,6 +122,30 @@ ITermWhole(rw, rh, erase, konsole) ==
            S3 == IF rh > 1 THEN AddT(S2, Num("cuu", rh - 1)) ELSE S2
        IN AddG(S3, "iterm", ITermImg(rw, rh, FALSE))
 
+(* ---- skeleton of a token stream: what a choreography IS, independent of colours, ---- *)
+(* ---- run lengths and the number of payload chunks                                ---- *)
+RECURSIVE SkelFrom(_, _, _, _)
+SkelFrom(toks, gfx, i, acc) ==
+  \* acc = number of glyphs printed since the last structural token
+  LET Flush == IF acc > 0 THEN <<<<"text", acc, 0, 0>>>> ELSE <<>> IN
+  IF i > Len(toks) THEN Flush
+  ELSE LET t == toks[i] IN
+    CASE t.k = "print" -> SkelFrom(toks, gfx, i + 1, acc + t.n)
+      [] t.k = "sgr" -> SkelFrom(toks, gfx, i + 1, acc)
+      [] t.k = "lf" -> Flush \o <<<<"lf", 0, 0, 0>>>> \o SkelFrom(toks, gfx, i + 1, 0)
+      [] t.k \in {"ech", "cuf", "cuu"} -> Flush \o <<<<t.k, t.n, 0, 0>>>> \o SkelFrom(toks, gfx, i + 1, 0)
+      [] t.k = "kitty" ->
+           LET g == gfx[t.x + 1] IN
+           IF g.a = "d" THEN Flush \o <<<<"kdel", 0, 0, 0>>>> \o SkelFrom(toks, gfx, i + 1, 0)
+           ELSE IF g.a = "T" THEN Flush \o <<<<"kimg", g.c, g.r, g.C>>>> \o SkelFrom(toks, gfx, i + 1, 0)
+           ELSE SkelFrom(toks, gfx, i + 1, acc)          \* continuation chunk
+      [] t.k = "iterm" ->
+           LET g == gfx[t.x + 1] IN
+           Flush \o <<<<"iimg", g.wcells, g.hcells, g.dnmc>>>> \o SkelFrom(toks, gfx, i + 1, 0)
+      [] OTHER -> Flush \o <<<<t.k, 0, 0, 0>>>> \o SkelFrom(toks, gfx, i + 1, 0)
+
+Skeleton(S) == SkelFrom(S.toks, S.gfx, 1, 0)
+
 (* ---- the shape of a render, by parameters ---- *)
 Shape(p) ==
   CASE p.style = "block" -> BlockLines(Empty, p.rw, p.rh, p.split, 1)
